@@ -186,14 +186,14 @@ def run(ctx: Context, rep) -> None:
     cm = ctx.fn(f"{DW}.current_metadata_checksums")
     hc = [c for c in cm.calls() if ctx.is_call(cm, c, "utils.hash_checksums")]
     fp = ctx.arg(hc[0], 0, "file_path") if hc else None
-    fdef = None
-    for n in cm.body_nodes():
-        if isinstance(n, (ast.Assign, ast.AnnAssign)):
-            t = n.targets[0] if isinstance(n, ast.Assign) else n.target
-            if dotted(t) == dotted(fp):
-                fdef = n.value
-    rep.ob("C05.cover", fdef is not None and ast.unparse(fdef) ==
-           "self._get_config_path(self.path)" and "hash_checksum_algorithms" in
+    # (locals expanded; properties are inlined by the normaliser)
+    from sa.norm import canon as _canon5
+    fdef_s = _canon5(cm, fp) if fp is not None else ""
+    rep.ob("C05.cover", fdef_s in (
+        "self._get_config_path(self.path)",
+        "self._get_config_path(path=self.path)",
+        "DatasetWriting._get_config_path(self.path)",
+        "DatasetBase._get_config_path(self.path)") and "hash_checksum_algorithms" in
            ast.unparse(ctx.arg(hc[0], 1, "hashes") or ast.Constant(0)),
            loc=cm.loc(), where=cm.qualname,
            construct=short(hc[0], 110) if hc else "<none>",
